@@ -75,13 +75,13 @@ theorem reachP_inv {P : Layout → List Coord → Prop} {ok : Layout → List Co
     rw [ht]
     exact ⟨⟨ih.rest.customs, ih.rest.noOvr, ih.rest.ovrClean, ih.rest.cur, ih.rest.unmod, ih.rest.unshift,
       ih.rest.caps, ih.rest.scroll, ih.rest.hscroll, ih.rest.moveV, ih.rest.moveH, ih.rest.wfi, ih.rest.vk,
-      ih.rest.mcd, ih.rest.seqOff⟩, ih.lay, ih.sync⟩
+      ih.rest.mcd, ih.rest.seqOff, ih.rest.noRec⟩, ih.lay, ih.sync⟩
 
 theorem mayBlock_of_invP {P : Layout → List Coord → Prop} {ok : Layout → List Coord → Ev → Prop}
     (hP : LayoutInvP P ok) {k : KState} {down : List Coord} (h : KInvP P k down) (hidle : isIdle k = true) :
     MayBlock k k.layout.keycodes k.overrideStates := by
   have hq := (idle_covers_time_driven k hidle).1
-  refine ⟨hidle, h.rest.wfi, hP.plain _ _ h.lay, h.rest.cur, ?_, h.rest.ovrClean, ?_⟩
+  refine ⟨hidle, h.rest.wfi, hP.plain _ _ h.lay, h.rest.cur, ?_, h.rest.ovrClean, ?_, h.rest.noRec⟩
   · rw [adjustKeys_rest k h.rest.unmod h.rest.unshift]
     exact overrideKeys_empty _ h.rest.noOvr _ _
   · rw [Synced, h.sync hq]
